@@ -114,7 +114,7 @@ def batch_entry(modname, cache, pkgkind, seed, frm, count, progress):
         if r.get("nontrivial", True):
             res["hashes"].add(getattr(mod, "history_hash", op_kinds_hash)(h))
         res["digest"].append([i, r.get("digest"), len(r["violations"])])
-        if len(res["samples"]) < 1 and not r["violations"] and i % 53 == 7:
+        if len(res["samples"]) < 1 and not r["violations"] and i % 7 == 3 and len(json.dumps(h)) < 5000:
             res["samples"].append(h)
         if r["violations"]:
             # violations whose call-site signature is a listed known finding are counted and one example kept; they neither
